@@ -43,6 +43,36 @@ def mat(name, created=None):
     return k
 
 
+_ZERO = {}
+
+
+def created_with_zero(name, where='keyid', start=1400000000):
+    """creation time for which the key id ('keyid'), the fingerprint ('fpr') or the short id ('shortid') of this material begins with a zero octet"""
+    ck = (name, where)
+    if ck not in _ZERO:
+        t = start
+        off = {'keyid': 12, 'fpr': 0, 'shortid': 16}[where]
+        while RK.fpr_of(mat(name, t))[off] != 0:
+            t += 1
+        _ZERO[ck] = t
+    return _ZERO[ck]
+
+
+def created_with_keyid(name, first=0, last=None, start=1400000000):
+    """a creation time for which the key id of this material begins with octet `first` (and, if given, ends with octet `last`):
+    identifiers with leading / trailing zero octets are where integer round trips and stripped prefixes show"""
+    ck = (name, first, last)
+    if ck not in _ZERO:
+        t = start
+        while True:
+            kid = RK.keyid_of(mat(name, t))
+            if kid[0] == first and (last is None or kid[-1] == last):
+                break
+            t += 1
+        _ZERO[ck] = t
+    return _ZERO[ck]
+
+
 def names(prefix=''):
     return sorted(n for n in allmat() if n.startswith(prefix))
 
